@@ -232,6 +232,13 @@ func (s *Stream) sendMessageWithEnd(ctx context.Context, data []byte, end byte) 
 		// Calculate the size overhead from encryption
 		encryptedSize := s.calculateEncryptedSize(len(data))
 
+		// The receiver applies MaxMessageSize to the on-wire (encrypted) length,
+		// so refuse here anything whose ciphertext (+ tag, + IV on the first
+		// frame) would exceed it rather than emit a frame the peer must reject.
+		if encryptedSize > MaxMessageSize {
+			return fmt.Errorf("message too large: %d bytes after encryption (max %d)", encryptedSize, MaxMessageSize)
+		}
+
 		// Construct header with encrypted data length
 		finalHeader[0] = end // End flag
 		binary.BigEndian.PutUint32(finalHeader[1:5], uint32(encryptedSize))
